@@ -329,6 +329,8 @@ def generated() -> dict[str, bytes]:
     ents = [{"name": n, "data": d} for n, d in members] + [{"name": "empty dir", "data": None}, {"name": "d/empty.txt", "data": b""}]
     g["gen/a.7z"] = write_7z(ents, layout="solid", method="lzma2")
     g["gen/perfile.7z"] = write_7z(ents, layout="per_file", method="copy", encoded_header=True)
+    # an archive that is refused because of a member name, the name holding a line break (error messages quote it)
+    g["gen/unsafe-name-newline.7z"] = write_7z([{"name": "../esc\nape.txt", "data": b"x\n"}, {"name": "ok.txt", "data": b"fine\n"}], method="copy")
     return g
 
 
